@@ -35,6 +35,14 @@ def select_items(rng, g):
                 items.append({"al": "o.f", "e": e, "unaliased": 1})       # an un-aliased nested path is reported under its text
         elif r < 0.72:
             items.append({"al": "l%d" % k, "e": strlit(rng.choice(["lit", "a b", "LIMIT"]))})
+        elif r < 0.78 and not g.f["nulls"]:
+            # (column OP literal): evaluated by a compiled program that is cached per expression text - the result is a function of
+            # THIS row only, whatever kinds of values earlier rows (of this or another statement of the process) carried
+            if rng.random() < 0.75:
+                e = exprgen.par({"t": "cmp", "op": rng.choice(["!=", "!=", ">", "<="]), "a": col(rng.choice(["x", "y"])), "b": num(rng.choice([0, 1, 2, 3, 5]))})
+            else:
+                e = exprgen.par({"t": "cmp", "op": "!=", "a": col("s"), "b": strlit(rng.choice(["ab", "a", "xz"]))})     # (x = 2) is NULL on the unchanged tree: recorded family ParenthesisedBooleanSelectItemIsNull
+            items.append({"al": "q%d" % k, "e": e})
         elif r < 0.85:
             e = g.numexpr(2)
             while e["t"] == "num" or ("-" in sql(e).replace(" - ", "") and "." in sql(e)):
@@ -116,13 +124,20 @@ def run(tier):
         sc["perf"] = {"strategy": "expand", "data": rng.choice([2, 4, 8]), "max": 400, "mininc": rng.choice([2, 4]), "growth": rng.choice([1.5, 2.0]), "slowsink": rng.choice([100, 300])}
         sc["meta"]["expand"] = 1
         scen.append(sc)
+    # the lossless configuration: "block" without a timeout and a tiny input buffer in front of a slowed consumer - the producer waits,
+    # every row arrives once and in order (also with a generous timeout)
+    for i in range(30 if quick else 1500):
+        sc = mk(rng, g, False, [None, "flat"][i % 2], rng.choice([30, 40, 60]), "emit", True)
+        sc["perf"] = {"strategy": "block", "data": rng.choice([1, 2, 4, 8]), "slowsink": rng.choice([100, 300, 600]), "blockms": rng.choice([0, 0, 0, 20000])}
+        sc["meta"]["block"] = 1
+        scen.append(sc)
     seqfam.run_scenarios(res, scen, "TraceDirect", tag="direct", relayout_p=0.3, retype_p=0.3, rename_p=0.3)
     seqfam.run_pinned(res, "TraceDirect")
     res.cov["exhaustive"] = False
     res.cov["distinct_nontrivial"] = len({s["sql"] + json.dumps(s["rows"], sort_keys=True) for s in scen})
     res.cov["rule"] = ("seeded queries: SELECT lists of columns, aliases, nested paths, string literals, arithmetic, function calls or *, optional WHERE (flat AND/OR chains or nested predicates), "
                        "rows mixing int / float64 / string / NULL / missing / nested maps; each through Emit (synchronous sink + result channel) or EmitSync in lock-step, "
-                       "plus unthrottled bursts of 20-40 rows checked for emission order at sink and channel; distinct = distinct (SQL, rows)")
+                       "plus unthrottled bursts of 20-40 rows checked for emission order at sink and channel (default buffer, expand strategy with a tiny buffer, block strategy without timeout and a tiny buffer); distinct = distinct (SQL, rows)")
     res.assumptions = ASSUME
     for nn, ic, cc in ([(6, 2, 2)] if quick else [(7, 2, 2), (7, 3, 1), (8, 1, 3)]):
         cfg = "SPECIFICATION Spec\nCONSTANTS N = %d InCap = %d ChanCap = %d Pass = {1,2,4,6}\nINVARIANTS SinkInOrder SinkComplete ChanInOrder ChanAccounted\nCHECK_DEADLOCK FALSE\n" % (nn, ic, cc)
